@@ -83,7 +83,8 @@ enum Role { ADMIN MEMBER }
 input Paging { first: Int after: String }
 union SearchResult = User | Photo
 union Media = Photo | Album
-type Query { node(id: ID!): Node search: [SearchResult] best: SearchResult me: User settings: Settings feed: [Media] named: [Named] }
+type Query { node(id: ID!): Node search: [SearchResult] best: SearchResult me: User settings: Settings feed: [Media] named: [Named] board: [[Cell!]!]! cube: [[[Cell]]] }
+type Cell { value: Int owner: User }
 type User implements Node & Named { id: ID! name: String firstName: String! role: Role joined: Date }
 type Photo implements Node { id: ID! url: String }
 type Album implements Node & Named { id: ID! name: String title: String }
@@ -107,6 +108,7 @@ var kindsFixed = []planCase{
 	{ID: "kinds-union-named-fragment", Query: `{ feed { ...M } } fragment M on Media { __typename ... on Album { title cover { likes } } }`, Valid: true},
 	{ID: "kinds-union-both-services", Query: `{ latest { __typename ... on Photo { url likes } } me { favorite { __typename } } }`, Valid: true},
 	{ID: "kinds-interface-typename", Query: `{ named { __typename name ... on User { lastName role joined } } }`, Valid: true},
+	{ID: "kinds-list-of-lists", Query: `{ board { value } cube { value owner { lastName } } }`, Valid: true},
 	{ID: "kinds-plain-object", Query: `{ settings { theme since owner { lastName role } } }`, Valid: true},
 }
 
@@ -147,7 +149,7 @@ func (c08) Cases(tier string) int {
 }
 
 func (c08) Rule() string {
-	return "fixed cases (1-301 cross-service branch points spread over root fields and inside one step, fragment chains and field nesting of depth 1-40, queries on a federation with unions / enums / a custom scalar / a plain object / a second interface, two simultaneous planning errors, the known ping-pong configuration, syntax errors, undefined/cyclic fragments, introspection) then generated valid queries, single-token mutations of valid queries (mostly invalid) and random byte strings, over fixed and random federations with priorities, every fifth generated case a query generated from the merged schema of the federation of the other kinds of type (unions declared by one and by both services, __typename on union- and interface-typed fields); planning only, under a 5 s watchdog in a worker process; checked: returns, no panic, a plan iff gqlparser validates the query against the captured merged schema, goroutine count back to its level afterwards; non-trivial = valid query with at least 2 steps or an invalid query; distinct = distinct (federation, priorities, query)"
+	return "fixed cases (1-301 cross-service branch points spread over root fields and inside one step, fragment chains and field nesting of depth 1-40, queries on a federation with unions / enums / a custom scalar / a plain object / a second interface / lists of lists, two simultaneous planning errors, the known ping-pong configuration, syntax errors, undefined/cyclic fragments, introspection) then generated valid queries, single-token mutations of valid queries (mostly invalid) and random byte strings, over fixed and random federations with priorities, every fifth generated case a query generated from the merged schema of the federation of the other kinds of type (unions declared by one and by both services, __typename on union- and interface-typed fields); planning only, under a 5 s watchdog in a worker process; checked: returns, no panic, a plan iff gqlparser validates the query against the captured merged schema, goroutine count back to its level afterwards; non-trivial = valid query with at least 2 steps or an invalid query; distinct = distinct (federation, priorities, query)"
 }
 
 const noiseAlphabet = "{}()[]:$@!.\"\\ abcdefquerymutationfragmenton#,\n\t0123456789"
